@@ -10,6 +10,188 @@ def _c19_case(c):
     return {"raw": c}
 
 
+# ---------------------------------------------------------------------------
+# A sample of the correspondence cases is re-evaluated INSIDE Coq with vm_compute and compared
+# with what the extracted OCaml runner printed (model.txt).  This cross-checks the extraction
+# and the OCaml driver (parsing, printing, annotation sorting), not the implementation.
+
+def _vm_str(h):
+    if h == "-":
+        return "(@nil N)"
+    return "[" + "; ".join(str(x) for x in bytes.fromhex(h)) + "]"
+
+
+def _vm_ann(t):
+    if t == "-":
+        return "(@nil kv)"
+    out = []
+    for kv in t.split(";"):
+        k, v = kv.split("=")
+        out.append("(%s, %s)" % (_vm_str(k), _vm_str(v)))
+    return "[" + "; ".join(out) + "]"
+
+
+def _vm_desc(t):
+    _, mt, dg, sz, ann, at, ex = t.split(":")
+    return "(mkDesc %s %s (%s)%%Z %s %s %s)" % (_vm_str(mt), _vm_str(dg), sz, _vm_ann(ann), _vm_str(at), _vm_str(ex))
+
+
+def _vm_odesc(t):
+    return "(@None desc)" if t == "N" else "(Some %s)" % _vm_desc(t)
+
+
+def _vm_list(t):
+    if t == "N":
+        return "(@None (list desc))"
+    ds = t.split(",")[1:]
+    return "(Some %s)" % ("(@nil desc)" if not ds else "[" + "; ".join(_vm_desc(d) for d in ds) + "]")
+
+
+def _vm_store(t):
+    es = t.split(",")[1:]
+    if not es:
+        return "(@nil entry)"
+    out = []
+    for e in es:
+        mt, dg, sz = e.split(":")
+        out.append("(mkEntry %s %s (%s)%%Z [])" % (_vm_str(mt), _vm_str(dg), sz))
+    return "[" + "; ".join(out) + "]"
+
+
+def _vm_events(t):
+    if t == "-":
+        return "(@nil vev)"
+    out = []
+    evs = []
+    for piece in t.split(";"):  # ';' also separates annotations inside an event
+        if piece.startswith(("X:", "PB:", "PM:")):
+            evs.append(piece)
+        else:
+            evs[-1] += ";" + piece
+    for e in evs:
+        f = e.split(":")
+        if f[0] == "X":
+            out.append("(VX %s %s (%s)%%Z)" % (_vm_str(f[1]), _vm_str(f[2]), f[3]))
+        elif f[0] == "PB":
+            out.append("(VPB %s %s (%s)%%Z %s)" % (_vm_str(f[1]), _vm_str(f[2]), f[3], _vm_ann(f[4])))
+        else:
+            out.append("(VPM %s %s %s)" % (_vm_str(f[1]), _vm_str(f[2]), _vm_ann(f[3])))
+    return "[" + "; ".join(out) + "]"
+
+
+_VM_PRELUDE = """From Oras Require Import Base.Prelude Base.Regex Generated.GC19 Model.Pack.
+Fixpoint vm_ltb (x y : str) : bool :=
+  match x, y with
+  | [], [] => false
+  | [], _ :: _ => true
+  | _ :: _, [] => false
+  | c :: x', d :: y' => (c <? d) || ((c =? d) && vm_ltb x' y')
+  end.
+Fixpoint vm_ins (p : kv) (l : list kv) : list kv :=
+  match l with
+  | [] => [p]
+  | q :: l' => if vm_ltb (fst q) (fst p) then q :: vm_ins p l' else p :: l
+  end.
+Definition vm_sort (l : list kv) : list kv := fold_right vm_ins [] l.
+Definition vm_desc (d : desc) : desc := mkDesc (d_mt d) (d_dg d) (d_sz d) (vm_sort (d_ann d)) (d_at d) (d_extra d).
+Inductive vev := VX (mt dg : str) (sz : Z) | VPB (mt dg : str) (sz : Z) (ann : list kv) | VPM (mt at_ : str) (ann : list kv).
+Definition vm_ev (e : event) : vev :=
+  match e with
+  | EvExists d => VX (d_mt d) (d_dg d) (d_sz d)
+  | EvPush RBlob d _ => VPB (d_mt d) (d_dg d) (d_sz d) (vm_sort (d_ann d))
+  | EvPush RManifest d _ => VPM (d_mt d) (d_at d) (vm_sort (d_ann d))
+  end.
+Inductive vres :=
+| VErr (e : err)
+| VOk (mt at_ : str) (ann : list kv) (k : mkind) (cfg : option desc) (layers : option (list desc))
+      (subj : option desc) (mat : str) (mann : list kv).
+Definition vm_view (p : state * result) : vres * list vev :=
+  (match snd p with
+   | Err e => VErr e
+   | Ok d m => VOk (d_mt d) (d_at d) (vm_sort (d_ann d)) (m_kind m) (option_map vm_desc (m_config m))
+                   (option_map (map vm_desc) (m_layers m)) (option_map vm_desc (m_subject m)) (m_at m)
+                   (vm_sort (m_ann m))
+   end, map vm_ev (s_events (fst p))).
+Definition vm_marshal (_ : manifest) : str := [].
+Definition vm_h (s : str) : str := if str_eqb s empty_json then empty_json_digest else [63].
+Definition vm_now : str := [60; 78; 79; 87; 62].
+"""
+
+
+def _vm_goal(case, out):
+    p = case.split(" ")
+    o = out.split(" ")
+    if p[0] == "M":
+        return "valid_media_type %s = %s" % (_vm_str(p[1]), "true" if o[0] == "1" else "false")
+    if p[0] == "T":
+        return "rfc3339_ok %s = %s" % (_vm_str(p[1]), "true" if o[0] == "1" else "false")
+    if p[0] != "K":
+        return None
+    fn = {"v10": "FV10", "v11": "FV11", "vbad": "FBadVersion", "rc2": "FRC2", "art": "FArtifact"}[p[1]]
+    key = {"0": "KFull", "1": "KDigest", "2": "KNamespace"}[p[3]]
+    fa = "(@None nat)" if p[4] == "-" else "(Some %s%%nat)" % p[4]
+    call = ("(pack vm_marshal vm_h %s (mkTcfg %s %s) %s (init_state %s) %s (mkOpts %s %s %s %s %s) vm_now)"
+            % (fn, "true" if p[2] == "1" else "false", key, fa, _vm_store(p[11]), _vm_str(p[5]), _vm_odesc(p[6]),
+               _vm_list(p[7]), _vm_ann(p[8]), _vm_odesc(p[9]), _vm_ann(p[10])))
+    if o[0] == "ERR":
+        e = {"unsupported": "EUnsupported", "invalid-media-type": "EInvalidMediaType", "missing-artifact-type": "EMissingArtifactType",
+             "invalid-datetime": "EInvalidDateTime", "injected": "EInjected"}[o[1]]
+        return "vm_view %s = (VErr %s, %s)" % (call, e, _vm_events(o[3]))
+    mt, at, ann = o[1].split(":")
+    f = dict(t.split("=", 1) for t in o[2:8])
+    res = "(VOk %s %s %s %s %s %s %s %s %s)" % (_vm_str(mt), _vm_str(at), _vm_ann(ann), {"I": "KImage", "A": "KArtifact"}[f["kind"]],
+                                             _vm_odesc(f["cfg"]), _vm_list(f["layers"]), _vm_odesc(f["subj"]), _vm_str(f["at"]),
+                                             _vm_ann(f["ann"]))
+    return "vm_view %s = (%s, %s)" % (call, res, _vm_events(o[9]))
+
+
+def _c19_vm_sample(d, tier, coq, build):
+    import os, subprocess, collections
+    quota = {"K": 250, "M": 120, "T": 120} if tier == "thorough" else {"K": 30, "M": 15, "T": 15}
+    outs = {}
+    with open(os.path.join(d, "model.txt")) as f:
+        for l in f:
+            i, _, o = l.rstrip("\n").partition(" ")
+            outs[i] = o
+    total = collections.Counter()
+    with open(os.path.join(d, "cases.txt")) as f:
+        for l in f:
+            c = l.split(" ", 2)
+            if len(c) > 1 and len(l) <= 12000:
+                total[c[1]] += 1
+    got, stride, goals = collections.Counter(), collections.Counter(), []
+    with open(os.path.join(d, "cases.txt")) as f:
+        for l in f:
+            i, _, c = l.rstrip("\n").partition(" ")
+            k = c.split(" ", 1)[0]
+            if k not in quota or got[k] >= quota[k] or len(l) > 12000 or i not in outs:
+                continue
+            stride[k] += 1
+            if (stride[k] - 1) % max(1, total[k] // quota[k]) != 0:
+                continue
+            g = _vm_goal(c, outs[i])
+            if g:
+                got[k] += 1
+                goals.append((i, g))
+    vdir = os.path.join(build, "vm")
+    os.makedirs(vdir, exist_ok=True)
+    vf = os.path.join(vdir, "C19_cases.v")
+    with open(vf, "w") as f:
+        f.write(_VM_PRELUDE)
+        for i, g in goals:
+            f.write("\n(* %s *)\nGoal %s.\nProof. vm_compute. reflexivity. Qed.\n" % (i, g))
+    p = subprocess.run(["coqc", "-R", coq, "Oras", "-w", "-notation-overridden", vf], cwd=vdir, timeout=1500,
+                       stdout=subprocess.PIPE, stderr=subprocess.STDOUT, text=True)
+    with open(os.path.join(d, "vm_sample.txt"), "w") as f:
+        f.write("%d goals %s rc=%d\n%s" % (len(goals), dict(got), p.returncode, p.stdout[-3000:]))
+    if p.returncode != 0:
+        return ["vm_compute re-evaluation of %d sampled cases inside Coq disagrees with the extracted runner (or does not type-check): %s"
+                % (len(goals), p.stdout[-1200:])]
+    if len(goals) < sum(quota.values()) // 2:
+        return ["vm_compute sample too small: %d goals" % len(goals)]
+    return []
+
+
 CONFIG = {
     "properties_file": "Properties/C19.v",
     "proof_files": ["Base/Prelude.v", "Base/Regex.v", "Base/StrCheck.v", "Proofs/Pack.v", "Proofs/PackTime.v"],
@@ -18,6 +200,7 @@ CONFIG = {
     "ml_main": "c19_main.ml",
     "harness": "c19",
     "case_to_replay": _c19_case,
+    "post_model": _c19_vm_sample,
     "assumptions": [
         "json.Marshal of the manifest document is a parameter (marshal : manifest -> str); the model's manifest record is the JSON-level document after omitempty; the harness re-parses the stored bytes with encoding/json and compares the document field by field",
         "the digest function is a parameter H with the single hypothesis H \"{}\" = sha256:44136f...; collision-freeness of H is an explicit premise of the clauses that conclude equality of stored bytes",
